@@ -156,8 +156,8 @@ func TestC11(t *testing.T) {
 	cfg := engine.DefaultConfig()
 	si, sn := shard()
 	_ = si
-	extBudget := scale(24, 1600) / sn
-	raceBudget := scale(8, 400) / sn
+	extBudget := scale(160, 4000) / sn
+	raceBudget := scale(16, 800) / sn
 	extN, raceN := 0, 0
 	rapid.Check(t, func(rt *rapid.T) {
 		p := proggen.Gen(rt, proggen.GenOpts{Focus: "all", MinPkgs: 4, MaxPkgs: 8, TestFiles: false, Aliases: true, Rich: true})
